@@ -105,6 +105,14 @@ func rootOf(v ssa.Value) ssa.Value {
 			v = x.X
 		case *ssa.IndexAddr:
 			v = x.X
+		case *ssa.Alloc:
+			// a by-value parameter spilled to a cell because its address is taken
+			if st := engine.StoresTo(x); len(st) == 1 {
+				if par, ok := st[0].Val.(*ssa.Parameter); ok {
+					return par
+				}
+			}
+			return v
 		default:
 			return v
 		}
